@@ -670,3 +670,84 @@ def c16(run, selftest=True):
         "each body is rendered with varying visibility / types / generics / where-clauses and fed to 63 FromDeriveInput receivers (every subset of ident / vis / generics / attrs / data, "
         "generics as syn, ast, WithOriginal, SpannedValue, Result; data and attrs plain or with a custom converter) and each member to the 16 subsets of FromField / FromVariant / FromTypeParam magic fields; "
         "every part is compared with the input's own. A case is one body.")
+
+
+# =====================================================================================================
+# C15 - splitting into items, routing to hooks
+# =====================================================================================================
+
+NMG_CFG = """SPECIFICATION Spec
+CONSTANTS
+  MaxLen = %d
+  EMIT = TRUE
+INVARIANTS C15_Agree EmitAll
+CHECK_DEADLOCK FALSE
+"""
+MR_CFG = """SPECIFICATION Spec
+CONSTANTS
+  EMIT = TRUE
+INVARIANTS C15_Routing EmitDone
+CHECK_DEADLOCK FALSE
+"""
+
+
+def tagged_selftest(run, module, tlc_out, mutate, what, replay_args):
+    tag = '<<"REPLAY", '
+    first = None
+    with open(tlc_out, errors="replace") as f:
+        for n, line in enumerate(f):
+            if line.startswith(tag):
+                case = json.loads(json.loads(line.strip()[len(tag):-2]))
+                if mutate(case):
+                    first = case
+                    break
+    if first is None:
+        raise ToolError("selftest(%s): nothing to corrupt" % what)
+    nd = run.path("selftest_%s.ndjson" % module)
+    with open(nd, "w") as f:
+        f.write(json.dumps(first) + "\n")
+    r = run.vh(*(replay_args + [nd]))
+    if r.get("prop_mismatch", 0) == 0:
+        raise ToolError("selftest(%s): corrupted expectation not detected" % what)
+    run.notes.append("selftest replay-corruption (%s): detected" % what)
+
+
+@plan("C15")
+def c15(run, selftest=True):
+    run.build()
+    q = run.tier == "quick"
+    # A. the list grammar: every token-class string up to the bound (contains every single-token mutation of every valid shorter list)
+    res = run.tlc("NestedMetaGrammar", NMG_CFG % (5 if q else 6), "nmg", workers=8)
+    run.require_tlc_ok(res, "NestedMetaGrammar")
+    r = run.vh("replay", "nmg", res["out"], timeout=3000)
+    run.add_replay_result("nmg", r)
+    if selftest:
+        def flip(case):
+            if not case["unspecified"] and case["expect"]["ok"] and len(case["expect"]["items"]) >= 1 and case["expect"]["items"][0]["k"] == "lit":
+                case["expect"]["items"][0] = {"k": "meta", "form": "word"}
+                return True
+            return False
+        tagged_selftest(run, "nmg", res["out"], flip, "reclassify a literal item as a word", ["replay", "nmg"])
+    os.remove(res["out"])
+    # B. routing: all 2^7 override sets x all item forms x three probe behaviours
+    res = run.tlc("MetaRouting", MR_CFG, "routing", workers=4)
+    run.require_tlc_ok(res, "MetaRouting")
+    r = run.vh("replay", "routing", res["out"], timeout=3000)
+    run.add_replay_result("routing", r)
+    if selftest:
+        def flip2(case):
+            if case["expect"]["hook"] == "string":
+                case["expect"]["hook"] = "value"
+                return True
+            return False
+        tagged_selftest(run, "routing", res["out"], flip2, "expect the generic-literal hook instead of the string hook", ["replay", "routing"])
+    os.remove(res["out"])
+    run.assumptions = ["token classes are materialised with fixed pools of concrete tokens (three materialisations per class string)",
+                       "what may follow a complete value after `=` other than a comma is syn's expression grammar: such strings are generated and parsed (no panic) but not compared (counted as unspecified)"]
+    return run.finish(
+        "model_checking",
+        "A: every string over 12 token classes up to length 5 (quick) / 6 (thorough): TLC checks the transcribed peek-driven parser against the declarative "
+        "'comma-separated literals and meta items' definition; each string is materialised three times and parsed by NestedMeta::parse_meta_list (verdict, count, order, "
+        "classification, print/re-parse identity, nested lists to depth 4). B: all 128 subsets of the seven hooks x 33 item forms (word, list, non-meta list, name-value with "
+        "six literal kinds and two expression kinds under 0..2 invisible groups, nested literals) x three probe behaviours: TLC checks the call-stack machine against "
+        "routing-by-form; 128 real probe implementers log their calls (exactly one hook, its payload, error span). A case is one class string / one (hook set, item, mode).")
